@@ -335,7 +335,7 @@ structure DirRef where
   beyondHole : Bool
   missing : Nat           -- uncovered byte positions between the first missing byte and the last captured one
   wraps : Bool            -- the sequence numbers in play cross 2^32
-  clean : Bool            -- the data segments arrive exactly once and in order
+  clean : Bool            -- the data segments arrive exactly once and in order, after the SYN and before the FIN
 
 def dirRef (k : Case) (evs : Array Ev) (c d : Nat) : DirRef :=
   let mine := evs.toList.filter fun e => e.c == c && e.d == d
@@ -350,7 +350,13 @@ def dirRef (k : Case) (evs : Array Ev) (c d : Nat) : DirRef :=
   let isn := sel k.conns[c]!.isn d
   let lo := isn + 1 + (if hasSyn then 0 else minOff)
   let hi := isn + 1 + maxStop segs + 1
-  let clean := (segs.foldl (fun (acc : Bool × Nat) s => (acc.1 && s.off == acc.2, s.stop)) (true, base)).1
+  -- in order: every data segment continues where the previous one stopped, no data after a FIN, none before the SYN
+  let dataInOrder := (segs.foldl (fun (acc : Bool × Nat) s => (acc.1 && s.off == acc.2, s.stop)) (true, base)).1
+  let flagsInOrder := (mine.foldl (fun (acc : Bool × Bool × Bool) e =>
+      -- (ok, a FIN has been seen, data has been seen)
+      let hasData := !e.data.isEmpty
+      (acc.1 && !(hasData && acc.2.1) && !(e.syn && acc.2.2), acc.2.1 || e.fin, acc.2.2 || hasData)) (true, false, false)).1
+  let clean := dataInOrder && flagsInOrder
   { present := !mine.isEmpty, hasSyn, hasFin, base, stop, stream := r.1, beyondHole := r.2,
     missing := uncoveredCount segs stop (maxStop segs - stop),
     wraps := lo < 4294967296 && hi ≥ 4294967296, clean }
